@@ -846,12 +846,12 @@ void File::uncompressedFileReadThread(File * file) {
             if (!file->m_uncompressedFile.good())
                 file->m_uncompressedFileThreadRunning = false;
         }
-
-        /* set end of file */
-        file->m_readWriteQueue.setFileSize(file->m_readWriteQueue.tellp());
     } catch (...) {
         file->m_uncompressedFileThreadException = std::current_exception();
     }
+
+    /* set end of file (also when the loop was left by an exception: the next stage must not wait forever) */
+    file->m_readWriteQueue.setFileSize(file->m_readWriteQueue.tellp());
 }
 
 void File::uncompressedFileWriteThread(File * file) {
@@ -864,12 +864,12 @@ void File::uncompressedFileWriteThread(File * file) {
             if (!file->m_readWriteQueue.good())
                 file->m_uncompressedFileThreadRunning = false;
         }
-
-        /* set end of file */
-        file->m_uncompressedFile.setFileSize(file->m_uncompressedFile.tellp());
     } catch (...) {
         file->m_uncompressedFileThreadException = std::current_exception();
     }
+
+    /* set end of file (also when the loop was left by an exception: the next stage must not wait forever) */
+    file->m_uncompressedFile.setFileSize(file->m_uncompressedFile.tellp());
 }
 
 void File::compressedFileReadThread(File * file) {
@@ -886,12 +886,12 @@ void File::compressedFileReadThread(File * file) {
             if (!file->m_compressedFile.good())
                 file->m_compressedFileThreadRunning = false;
         }
-
-        /* set end of file */
-        file->m_uncompressedFile.setFileSize(file->m_uncompressedFile.tellp());
     } catch (...) {
         file->m_compressedFileThreadException = std::current_exception();
     }
+
+    /* set end of file (also when the loop was left by an exception: the next stage must not wait forever) */
+    file->m_uncompressedFile.setFileSize(file->m_uncompressedFile.tellp());
 }
 
 void File::compressedFileWriteThread(File * file) {
